@@ -154,6 +154,7 @@ def conclude(prop, tier, seed, comps, metas, results, infra, t_start, verbose=Fa
             print(line)
             printed.add(line)
     vio_files = []
+    suff_only = []
     if violations:
         import replayers
         rdir = os.path.join(ROOT, 'replay', prop)
@@ -169,13 +170,22 @@ def conclude(prop, tier, seed, comps, metas, results, infra, t_start, verbose=Fa
                 rep['replay'] = replayers.attempt(prop, c, g, o, rep)
             except Exception as ex:  # a broken replayer must not hide the violation
                 rep['replay'] = {'reproduced': False, 'detail': 'replayer error: %r' % ex}
+            if 'suff' in o.get('tags', []) and not rep['replay'].get('reproduced'):
+                # a [suff] obligation is a sufficient condition that is stronger than the property statement: without a
+                # failing input on the real code its failure decides nothing
+                infra.append('%s: sufficient-condition obligation %s failed, but no failing input was found on the real code (%s)' % (
+                    g.name, ob_key(o), str(rep['replay'].get('detail', ''))[:120]))
+                suff_only.append(o)
+                continue
             json.dump(rep, open(path, 'w'), indent=1)
             suffix = '' if rep['replay'].get('reproduced') else ' no-failing-input-found'
             print('VIOLATION property=%s replay=%s%s' % (prop, path, suffix))
             print('  failed obligation: %s (group %s, enforced function %s)' % (ob_key(o), g.name, g.enforce))
             vio_files.append(path)
         replayers.cleanup()
-        rc = 1
+        violations = [v for v in violations if v[3] not in suff_only]
+        if violations:
+            rc = 1
     if infra:
         for i in infra:
             print('UNDECIDED: %s' % i)
